@@ -42,6 +42,9 @@ CHECKS = {
     'C20': dict(category='model_checking', engine='Script', technique='TLA+ Script.tla Deps operator (TLC: Deps = right-hand-side reads) vs symbols_to_graph edges; observed reads and perturbation on recording arrays',
                 text="TLC proves Deps(i) equals the variable-like right-hand-side terms; the graph's edges among variable-like nodes must equal Deps, nodes carry their normalised equation, the reads observed when evaluating each equation alone equal its in-edges and perturbing any series/offset without an edge leaves the result unchanged.",
                 note='Trusted: as C01.', ref='7 (C20)'),
+    'C07': dict(category='translation_validation', engine='Script', technique='TLA+ Script.tla programs of the common expression subset; build_fortran_definition output compiled with gfortran (ctypes stand-in for F2PY) and compared with the Python class and with the reference interpretation of the spec tree on evaluate / solve_t / solve',
+                text='Script.tla enumerates the programs; each is translated to Fortran, compiled and loaded as ENGINE of a FortranEngine subclass; evaluate must equal the Python class and the reference interpretation of the spec tree for every feasible period in both spellings; solve_t over all periods (incl. infeasible) and random option sets (offsets in/out of span, max_iter=0, min>max) and solve over default/explicit ranges must give the same return values, exception classes, statuses, iteration counts and values as the Python class, whose control behaviour is bound to Solver.tla by C02/C06.',
+                note='Trusted: gfortran; ctypes shim instead of F2PY (F2PY marshalling not exercised); finite data only; 1e-12 relative tolerance.', ref='7 (C07), 15.2'),
 }
 
 NOT_YET = {}
